@@ -45,7 +45,22 @@ fn rand_val(rng: &mut Rng) -> i64 {
     }
 }
 
+/// one value written with a chosen number of digits (1..=15): continuation digits whose payloads are random, all
+/// zero or all ones, then a terminator of any payload -- every digit-count class is equally likely
+fn digits_class(rng: &mut Rng) -> Vec<i64> {
+    let nd = 1 + rng.below(15);
+    let style = rng.below(3);
+    let mut ds: Vec<i64> = (1..nd).map(|_| 32 + match style { 0 => rng.below(32) as i64, 1 => 0, _ => 31 }).collect();
+    ds.push(rng.below(32) as i64);
+    ds
+}
+
 pub fn gen(rng: &mut Rng, size: usize) -> Value {
+    if rng.chance(1, 5) {
+        let mut ds = vec![];
+        for _ in 0..1 + rng.below(3) { ds.extend(digits_class(rng)); }
+        return json!({"op": "dec", "ds": ds});
+    }
     match rng.below(4) {
         0 | 1 => {
             let n = if rng.chance(1, 20) { 64 + rng.below(200) } else { 1 + rng.below(size.max(1) as u64) };
